@@ -12,6 +12,7 @@ package main
 
 import (
 	"bufio"
+	"bytes"
 	"context"
 	"fmt"
 	"io"
@@ -21,6 +22,7 @@ import (
 	"os/exec"
 	"reflect"
 	"regexp"
+	"sort"
 	"strings"
 	"sync"
 	"time"
@@ -33,11 +35,15 @@ import (
 	"verifharness/hx"
 )
 
-var drivers = map[string]hx.DriverFn{"alloc": runAlloc, "barrage": runBarrage}
+var drivers = map[string]hx.DriverFn{"alloc": runAlloc, "barrage": runBarrage, "clientbarrage": runClientBarrage, "racebarrage": runRaceBarrage}
 
 func main() {
 	if len(os.Args) >= 2 && os.Args[1] == "serve" {
 		serve(os.Args[2:])
+		return
+	}
+	if len(os.Args) >= 2 && os.Args[1] == "client" {
+		clientMain(os.Args[2:])
 		return
 	}
 	hx.Main(drivers)
@@ -84,42 +90,64 @@ type child struct {
 }
 
 func startChild(addr string, maxPool int) (*child, error) {
-	bin := os.Args[0]
-	if b := os.Getenv("VERIF_C16_CHILD"); b != "" { // e.g. the same binary built with -race (thorough tier)
-		bin = b
-	}
-	cmd := exec.Command(bin, "serve", addr, fmt.Sprint(maxPool))
-	in, _ := cmd.StdinPipe()
-	out, _ := cmd.StdoutPipe()
-	eb := &strings.Builder{}
-	c := &child{cmd: cmd, stdin: in, addr: addr, errBuf: eb, done: make(chan struct{})}
-	ep, _ := cmd.StderrPipe()
-	if err := cmd.Start(); err != nil {
+	c, line, err := startChildProc("serve", addr, fmt.Sprint(maxPool))
+	if err != nil {
 		return nil, err
 	}
-	go func() {
-		b := make([]byte, 4096)
-		for {
-			n, err := ep.Read(b)
-			c.mu.Lock()
-			if eb.Len() < 1<<20 {
-				eb.Write(b[:n])
-			}
-			c.mu.Unlock()
-			if err != nil {
-				return
-			}
-		}
-	}()
-	go func() { _ = cmd.Wait(); close(c.done) }()
-	br := bufio.NewReader(out)
-	line, err := br.ReadString('\n')
-	if err != nil || !strings.HasPrefix(line, "READY") {
-		return nil, fmt.Errorf("child did not start: %q %v", line, err)
-	}
+	c.addr = addr
 	fmt.Sscanf(line, "READY %d %d", &c.port, &c.vhost)
-	go io.Copy(io.Discard, br)
 	return c, nil
+}
+
+// lockedBuf collects the child's stderr.  It is handed to exec as a Writer (not read from a pipe by us), so
+// cmd.Wait returns only after everything the child wrote has been copied: a panic message is never cut.
+type lockedBuf struct {
+	c *child
+}
+
+func (w lockedBuf) Write(b []byte) (int, error) {
+	w.c.mu.Lock()
+	if w.c.errBuf.Len() < 1<<20 {
+		w.c.errBuf.Write(b)
+	}
+	w.c.mu.Unlock()
+	return len(b), nil
+}
+
+// startChildProc re-executes this binary (or VERIF_C16_CHILD, e.g. the same binary built with -race) with the
+// given sub-command and waits for its READY line.
+func startChildProc(args ...string) (*child, string, error) {
+	bin := os.Args[0]
+	if b := os.Getenv("VERIF_C16_CHILD"); b != "" {
+		bin = b
+	}
+	cmd := exec.Command(bin, args...)
+	in, _ := cmd.StdinPipe()
+	out, _ := cmd.StdoutPipe()
+	c := &child{cmd: cmd, stdin: in, errBuf: &strings.Builder{}, done: make(chan struct{})}
+	cmd.Stderr = lockedBuf{c}
+	if err := cmd.Start(); err != nil {
+		return nil, "", err
+	}
+	br := bufio.NewReader(out)
+	lineCh := make(chan string, 1)
+	go func() {
+		line, _ := br.ReadString('\n')
+		lineCh <- line
+		_, _ = io.Copy(io.Discard, br)
+		_ = cmd.Wait()
+		close(c.done)
+	}()
+	var line string
+	select {
+	case line = <-lineCh:
+	case <-time.After(20 * time.Second):
+	}
+	if !strings.HasPrefix(line, "READY") {
+		_ = cmd.Process.Kill()
+		return nil, "", fmt.Errorf("child %v did not start: %q %s", args, line, firstLines(c.stderr(), 5))
+	}
+	return c, line, nil
 }
 
 func (c *child) alive() bool {
@@ -548,12 +576,23 @@ func watchdog(s *hx.Server) error {
 	return nil
 }
 
-func runBarrage(cfg *hx.RunCfg) error {
+func runBarrage(cfg *hx.RunCfg) error { return barrage(cfg, false) }
+
+// runRaceBarrage: the barrage weighted towards the structured scenarios (same-run-id re-logins overlapping
+// registrations, concurrent NewProxy/CloseProxy, groups, visitors, NAT-hole traffic); meant for a child built with
+// the race detector (VERIF_C16_CHILD), whose reports are classified after the child has stopped.
+func runRaceBarrage(cfg *hx.RunCfg) error { return barrage(cfg, true) }
+
+func barrage(cfg *hx.RunCfg, raceMode bool) error {
 	hx.Quiet()
 	g := hx.NewGen(cfg.Seed)
 	cf := &hx.CaseFile{Imports: "From FRP Require Import Corr.C16.\n", Typ: "case",
 		Tail: "Definition M := Eval vm_compute in mismatches check_case cases.\nPrint M.\n"}
-	c, err := startChild("127.0.16.2", 5)
+	childAddr := "127.0.16.2"
+	if raceMode {
+		childAddr = "127.0.16.3"
+	}
+	c, err := startChild(childAddr, 5)
 	if err != nil {
 		return err
 	}
@@ -573,11 +612,23 @@ func runBarrage(cfg *hx.RunCfg) error {
 			samples = append(samples, cs+" (* "+strings.ReplaceAll(detail, "*", "_")+" *)")
 		}
 	}
+	crashReported := false
 	crashed := func(kind, detail string) bool {
 		if c.alive() {
 			return false
 		}
-		fails = append(fails, map[string]any{"key": "frps-crash:" + kind, "what": "frps terminated (" + kind + "): " + crashClass(c.stderr()), "case": detail})
+		if crashReported {
+			return true
+		}
+		crashReported = true
+		time.Sleep(30 * time.Millisecond)
+		// stable key: the first frame inside frp of the panicking goroutine (the same defect has the same key whatever
+		// message happened to be in flight); the kind of the last case only if the stderr shows no such frame
+		key, where := "frps-crash:"+kind, crashFrame(c.stderr())
+		if where != "" {
+			key = "frps-crash:" + where
+		}
+		fails = append(fails, map[string]any{"key": key, "what": "frps terminated (" + kind + "): " + crashClass(c.stderr()) + " in " + where, "case": fmt.Sprintf("seed %d case %d: %s", cfg.Seed, len(cf.Cases), detail)})
 		st := c.stderr()
 		if len(st) > 6000 {
 			st = st[:6000]
@@ -716,7 +767,19 @@ func runBarrage(cfg *hx.RunCfg) error {
 			detail = detail[:300]
 		}
 		kind := ""
-		switch []int{0, 0, 1, 2, 2, 3, 3, 3, 3, 4}[g.Intn(10)] {
+		scenario := []int{0, 0, 1, 2, 2, 3, 3, 3, 3, 4}[g.Intn(10)]
+		if raceMode {
+			scenario = []int{0, 1, 2, 2, 3, 3, 3, 3, 4, 4, 5, 5, 5, 5, 5, 5}[g.Intn(16)]
+		}
+		switch scenario {
+		case 5: // structured: two more logins with the run id of a session that is registering proxies
+			kind = "structured-relogin-race"
+			typ = "Login"
+			detail = reloginRaceScenario(g, s)
+			if !strings.HasPrefix(detail, "ok") && c.alive() {
+				fails = append(fails, map[string]any{"key": "frps-stalled:relogin-while-registering", "what": "a login with a known run id got no LoginResp after logins with that run id overlapped registrations: " + detail,
+					"case": detail})
+			}
 		case 3: // structured: a mostly valid NewProxy of a random type with adversarial route/port/group fields
 			kind = "structured-newproxy"
 			np := structuredNewProxy(g, i)
@@ -833,19 +896,65 @@ func runBarrage(cfg *hx.RunCfg) error {
 	}
 	time.Sleep(100 * time.Millisecond)
 	crashed("background-traffic", "concurrent xtcp/stcp/group registration, closure, visitor pre-checks")
+	// directed, last (a crash here costs no random case): udp proxies closed (CloseProxy / session end) while user datagrams
+	// pour into their ports
+	if c.alive() {
+		rounds := 40
+		if cfg.Tier == "thorough" {
+			rounds = 200
+		}
+		ug := hx.NewGen(cfg.Seed + 977)
+		for r := 0; r < rounds && c.alive(); r++ {
+			detail := udpCloseScenario(ug, s)
+			if crashed("directed:udp-close-under-traffic", detail) {
+				break
+			}
+			record("directed:udp-close-under-traffic", "CloseProxy", detail, true, true)
+		}
+		time.Sleep(50 * time.Millisecond)
+		crashed("directed:udp-close-under-traffic", "udp proxies closed under datagram traffic")
+	}
 	// race detector reports of a -race child (thorough tier): a race whose stack touches one of the shared
 	// tables' owner types is a violation; the others are listed in the stats
 	c.stop()
 	races := raceReports(c.stderr())
 	sites := lockSites(cfg.Extra)
 	other := []string{}
+	frpOwned := []string{}
+	closeSend := []string{}
+	seenKey := map[string]bool{}
 	for _, r := range races {
 		if t := sharedTableType(r, sites); t != "" {
 			fails = append(fails, map[string]any{"key": "data-race:" + t, "what": "race detector: unsynchronised access in " + t, "case": firstLines(r, 14)})
+		} else if key, where := frpOwnedRace(r); strings.HasPrefix(key, "chan-close-vs-send:") {
+			// measured on the unchanged tree: exactly one such pair (server/control.go worker's close(workConnCh) against
+			// RegisterWorkConn's recover-wrapped send); recorded, not a violation
+			if !seenKey[key] {
+				seenKey[key] = true
+				closeSend = append(closeSend, where)
+			}
+		} else if strings.HasPrefix(key, "unprotected-send:") {
+			if !seenKey[key] {
+				seenKey[key] = true
+				fn := strings.TrimPrefix(key, "unprotected-send:")
+				fails = append(fails, map[string]any{"key": "frps-crash:" + fn, "what": "race detector: a channel is closed while " + fn + " sends on it without recover (panic: send on closed channel): " + where,
+					"case": fmt.Sprintf("seed %d, %d barrage cases (race mode %v); report:\n%s", cfg.Seed, len(cf.Cases), raceMode, firstLines(r, 30))})
+			}
+		} else if key != "" {
+			// rule: any other race one of whose accesses is made by frp code is a violation even if the object is not one
+			// of the listed shared tables (the unchanged tree produces none)
+			frpOwned = append(frpOwned, where)
+			if !seenKey[key] {
+				seenKey[key] = true
+				fails = append(fails, map[string]any{"key": key, "what": "race detector: unsynchronised accesses by frp code at " + where,
+					"case": fmt.Sprintf("seed %d, %d barrage cases (race mode %v); report:\n%s", cfg.Seed, len(cf.Cases), raceMode, firstLines(r, 30))})
+			}
 		} else {
 			other = append(other, firstLines(r, 8))
 		}
 	}
+	cfg.St["race_reports_frp_owned"] = frpOwned
+	cfg.St["race_reports_chan_close_vs_send"] = closeSend
 	cfg.St["race_reports"] = len(races)
 	if len(other) > 6 {
 		other = other[:6]
@@ -857,4 +966,223 @@ func runBarrage(cfg *hx.RunCfg) error {
 	cfg.St["samples"] = samples
 	cfg.St["impl_failures"] = fails
 	return cf.Write(cfg.Out)
+}
+
+// ---- race reports on objects outside the listed tables ----
+
+var raceAccessRe = regexp.MustCompile(`^(Previous )?(read|write|atomic read|atomic write|Read|Write) at 0x[0-9a-f]+ by `)
+var raceFuncRe = regexp.MustCompile(`^  (\S+)\(\)\s*$`)
+var repoPathRe = regexp.MustCompile(`/((?:server|client|pkg|cmd)/[^/].*)$`)
+var raceFileRe = regexp.MustCompile(`^      (\S+\.go:\d+)`)
+
+// ownerFrame: of one access stack (the lines after its header), the first frame that belongs to a module
+// (import path whose first element contains a dot), i.e. neither runtime nor standard library nor this harness.
+func ownerFrame(stack []string) (fn, file string) {
+	for i := 0; i+1 < len(stack); i++ {
+		m := raceFuncRe.FindStringSubmatch(stack[i])
+		if m == nil {
+			continue
+		}
+		first := m[1]
+		if j := strings.Index(first, "/"); j >= 0 {
+			first = first[:j]
+		}
+		if !strings.Contains(first, ".") || !strings.Contains(m[1], "/") {
+			continue // runtime., sync., net/http., main., verifharness/hx.
+		}
+		f := raceFileRe.FindStringSubmatch(stack[i+1])
+		file := ""
+		if f != nil {
+			file = f[1]
+		}
+		return m[1], file
+	}
+	return "", ""
+}
+
+// explicitRecover: senders whose recover is a deferred function of their own (not golib's PanicToError, which shows in the stack)
+var explicitRecover = map[string]bool{"server.(*Control).RegisterWorkConn": true}
+
+// frpOwnedRace: key and location pair of a report one of whose accesses is made by code of github.com/fatedier/frp.
+// A report whose two accesses are runtime.closechan and runtime.chansend (close of a channel against a send on it) gets
+// the key prefix "chan-close-vs-send:": that interleaving shows as "panic: send on closed channel" unless the send is
+// recover-wrapped, which is what the crash watch of the barrage observes; it is not a memory-safety hazard by itself.
+func frpOwnedRace(report string) (key, where string) {
+	lines := strings.Split(report, "\n")
+	var fns, files, tops []string
+	sendFn, sendWrapped := "", false
+	for i, l := range lines {
+		if !raceAccessRe.MatchString(strings.TrimSpace(l)) {
+			continue
+		}
+		end := i + 1
+		for end < len(lines) && strings.TrimSpace(lines[end]) != "" {
+			end++
+		}
+		fn, file := ownerFrame(lines[i+1 : end])
+		fns = append(fns, fn)
+		files = append(files, file)
+		if end > i+1 && strings.Contains(lines[i+1], "runtime.chansend") {
+			sendFn = fn
+			sendWrapped = strings.Contains(strings.Join(lines[i+1:end], "\n"), "golib/errors.PanicToError")
+		}
+		top := ""
+		if end > i+1 {
+			if m := raceFuncRe.FindStringSubmatch(lines[i+1]); m != nil {
+				top = m[1]
+			}
+		}
+		tops = append(tops, top)
+	}
+	const pfx = "github.com/fatedier/frp/"
+	owned := false
+	for _, fn := range fns {
+		if strings.HasPrefix(fn, pfx) {
+			owned = true
+		}
+	}
+	if !owned {
+		return "", ""
+	}
+	short := []string{}
+	locs := []string{}
+	for i, fn := range fns {
+		fn = strings.TrimPrefix(fn, pfx)
+		if j := strings.Index(fn, ".func"); j > 0 {
+			fn = fn[:j]
+		}
+		short = append(short, fn)
+		if m := repoPathRe.FindStringSubmatch(files[i]); m != nil { // keep the path inside the repository
+			files[i] = m[1]
+		}
+		locs = append(locs, fn+" ("+files[i]+")")
+	}
+	sort.Strings(short)
+	sort.Strings(tops)
+	if len(tops) == 2 && tops[0] == "runtime.chansend" && tops[1] == "runtime.closechan" {
+		sendFn = strings.TrimPrefix(sendFn, pfx)
+		if j := strings.Index(sendFn, ".func"); j > 0 {
+			sendFn = sendFn[:j]
+		}
+		if sendWrapped || explicitRecover[sendFn] {
+			return "chan-close-vs-send:" + strings.Join(short, "|"), strings.Join(locs, " <-> ")
+		}
+		// the sender has no recover around it: this interleaving IS "panic: send on closed channel" in sendFn; same key as
+		// the crash itself would get ("frps-crash:" / "frpc-crash:" is put in front by the caller)
+		return "unprotected-send:" + sendFn, strings.Join(locs, " <-> ")
+	}
+	return "data-race:frp:" + strings.Join(short, "|"), strings.Join(locs, " <-> ")
+}
+
+// reloginRaceScenario: session A (run id R) sends a row of NewProxy without waiting; at the same time two more
+// logins with R arrive (each replaces the session stored last).  Then an ordinary login with R must be answered.
+func reloginRaceScenario(g *hx.Gen, s *hx.Server) string {
+	p, _, err := s.Login(hx.LoginOpts{User: "rr"})
+	if err != nil || p == nil {
+		return "ok (first login refused)"
+	}
+	rid := p.RunID
+	k := 2 + g.Intn(6)
+	d1, d2 := time.Duration(g.Intn(3000))*time.Microsecond, time.Duration(g.Intn(3000))*time.Microsecond
+	typ := []string{"tcp", "stcp", "xtcp", "http"}[g.Intn(4)]
+	var wg sync.WaitGroup
+	wg.Add(3)
+	go func() {
+		defer wg.Done()
+		for i := 0; i < k; i++ {
+			np := &msg.NewProxy{ProxyName: fmt.Sprintf("rr%d", i), ProxyType: typ, Sk: "k", CustomDomains: []string{fmt.Sprintf("rr%d.test", i)}}
+			if p.Send(np) != nil {
+				return
+			}
+		}
+		_, _ = p.Recv(20 * time.Millisecond)
+	}()
+	relogin := func(d time.Duration) {
+		defer wg.Done()
+		time.Sleep(d)
+		if p2, _, _ := s.Login(hx.LoginOpts{User: "rr", RunID: rid}); p2 != nil {
+			_ = p2.Send(&msg.NewProxy{ProxyName: "rr-late", ProxyType: "stcp", Sk: "k"})
+			_, _ = p2.Recv(10 * time.Millisecond)
+			p2.Close()
+		}
+	}
+	go relogin(d1)
+	go relogin(d2)
+	wg.Wait()
+	p.Close()
+	last := ""
+	for attempt := 0; attempt < 3; attempt++ {
+		done := make(chan string, 1)
+		go func() {
+			p3, resp, err := s.Login(hx.LoginOpts{User: "rr", RunID: rid})
+			switch {
+			case err != nil:
+				done <- "no answer: " + err.Error()
+			case p3 == nil:
+				done <- "ok (refused: " + resp.Error + ")"
+			default:
+				p3.Close()
+				done <- "ok"
+			}
+		}()
+		select {
+		case last = <-done:
+		case <-time.After(6 * time.Second):
+			last = "no LoginResp within 6 s"
+		}
+		if strings.HasPrefix(last, "ok") {
+			break
+		}
+		time.Sleep(50 * time.Millisecond)
+	}
+	return fmt.Sprintf("%s [%d x NewProxy %s, re-logins after %v and %v]", last, k, typ, d1, d2)
+}
+
+// udpCloseScenario: register a udp proxy, stream datagrams at its remote port, close it (CloseProxy, or the control
+// connection) a few milliseconds later; twice per session.
+func udpCloseScenario(g *hx.Gen, s *hx.Server) string {
+	p, _, err := s.Login(hx.LoginOpts{User: "uc"})
+	if err != nil || p == nil {
+		return "login refused"
+	}
+	defer p.Close()
+	how := g.Intn(2)
+	rounds := 0
+	for r := 0; r < 2; r++ {
+		port := hx.FreeUDPPort(s.Addr)
+		resp, err := p.NewProxy(&msg.NewProxy{ProxyName: fmt.Sprintf("uc%d", r), ProxyType: "udp", RemotePort: port})
+		if err != nil || resp.Error != "" {
+			continue
+		}
+		rounds++
+		stop := make(chan struct{})
+		done := make(chan struct{})
+		go func() {
+			defer close(done)
+			c, err := net.DialUDP("udp", nil, &net.UDPAddr{IP: net.ParseIP(s.Addr), Port: port})
+			if err != nil {
+				return
+			}
+			defer c.Close()
+			b := bytes.Repeat([]byte("udp-user-datagram"), 80) // 1360 bytes: the forwarder spends its time encoding, not waiting
+			for {
+				select {
+				case <-stop:
+					return
+				default:
+					_, _ = c.Write(b)
+				}
+			}
+		}()
+		time.Sleep(time.Duration(3+g.Intn(15)) * time.Millisecond)
+		if how == 0 || r == 0 {
+			_ = p.CloseProxy(fmt.Sprintf("uc%d", r))
+		} else {
+			p.Close()
+		}
+		time.Sleep(20 * time.Millisecond)
+		close(stop)
+		<-done
+	}
+	return fmt.Sprintf("%d udp proxies closed under datagram traffic (%s)", rounds, []string{"CloseProxy", "CloseProxy, then session end"}[how])
 }
